@@ -16,12 +16,21 @@
 //   case <id>                               -> "case <id>"      (flushes a pending history first)
 //   cfg <shape> <ncons> <stage> [<selop>]   -> "ok" | "bad-op"
 //        shape: ts | tss | tsd   (TS<Int>, TSS<Int>, TSD<Int,TS<Int>>);  ncons 1..3
-//        stage: direct | pass | inner | innerref;   selop: ite (default) | cmp
-//   c [sel=<a|b|c>] [a=<d>] [b=<d>] [c=<d>]   one engine cycle (MIN_ST + i); answered when the run happens
-//        sel=a: cond=true / cmp=LT,  sel=b: cond=false / cmp=EQ,  sel=c: cmp=GT (cmp only)
+//        stage: direct | pass | inner | innerref;   selop: ite (default) | cmp | tree:<T>
+//        tree:<T>  CHAINED references: a selection tree whose inner nodes publish references that are the
+//                  branches of the node above.   T ::= a|b|c|d          a target (replay source)
+//                                                    | i(T,T)           if_then_else(cond, T, T)
+//                                                    | m(T,T,T)         if_cmp(cmp, T, T, T)
+//                                                    | p(T)             T passed (as REF) through a nested_ graph
+//                  at most 6 selection nodes, depth <= 4, the root is i or m; the selection nodes are numbered
+//                  in pre-order (root = 0), each has its own replayed selector; targets a..<highest letter used>
+//   c [sel=<a|b|c>] [s<k>=<0|1|2>] [a=<d>] [b=<d>] [c=<d>] [d=<d>]   one engine cycle (MIN_ST + i); answered when the run happens
+//        sel=a: cond=true / cmp=LT,  sel=b: cond=false / cmp=EQ,  sel=c: cmp=GT (cmp only)   [ite / cmp cfg only]
+//        s<k>=<j>: selector of selection node k ticks and selects its branch j                [tree cfg only]
 //        d   ts: <int>     tss: +k,-k,...      tsd: k:v,-k,...
 //        "r=<0|1> ra=<d|-> rb=<d|-> [rc=<d|->] rs=<d|-> | <c0> | <c1> ..."
-//        r    the REF output of the selection operator ticked in this cycle
+//        r    the REF output of the (root) selection operator ticked in this cycle
+//        tree cfg: " n=<count>" follows r: how many nodes of the tree (i, m, p) published a reference in this cycle
 //        ra   what the recorder on a (b, c) stored for this cycle;  rs the recorder through the reference
 //        <ci> "-" consumer i was not evaluated, else "v=<valid> m=<modified> x=<value|_> d=<delta_value()|_>"
 //             (+ " k=<+added,-removed[,~modified]>" from the key accessors for tss / tsd)
@@ -211,13 +220,93 @@ namespace
         static void           compose(Wiring &w, Port<REF<S>> in) { wire_consumers<S>(w, in.template as<S>(), N); }
     };
 
+    // ---- selection trees (chained references) ---------------------------------------------------
+    struct TNode
+    {
+        char             kind{'l'};   // l leaf, i if_then_else, m if_cmp, p nested pass-through
+        int              target{0};   // leaf: target index
+        int              sel{-1};     // i / m: selector number (pre-order)
+        std::vector<int> kids;
+    };
+
+    struct Tree
+    {
+        std::vector<TNode> nodes;
+        int                root{-1};
+        int                nsel{0};
+        int                ntargets{0};
+        std::vector<int>   arity;     // per selector number
+    };
+
+    constexpr int MAX_TARGETS = 4;
+    constexpr int MAX_SEL     = 6;
+    constexpr int MAX_DEPTH   = 4;
+
+    // recursive descent over "i(T,T)" / "m(T,T,T)" / "p(T)" / letter;  -1 = malformed
+    int parse_tree(const std::string &txt, std::size_t &pos, Tree &t, int depth)
+    {
+        if (pos >= txt.size() || depth > MAX_DEPTH) { return -1; }
+        const char ch = txt[pos];
+        if (ch >= 'a' && ch < 'a' + MAX_TARGETS)
+        {
+            ++pos;
+            TNode n;
+            n.target   = ch - 'a';
+            t.ntargets = std::max(t.ntargets, n.target + 1);
+            t.nodes.push_back(n);
+            return static_cast<int>(t.nodes.size()) - 1;
+        }
+        if (ch != 'i' && ch != 'm' && ch != 'p') { return -1; }
+        const std::size_t want = ch == 'i' ? 2 : ch == 'm' ? 3 : 1;
+        ++pos;
+        if (pos >= txt.size() || txt[pos] != '(') { return -1; }
+        ++pos;
+        TNode n;
+        n.kind = ch;
+        if (ch != 'p')
+        {
+            if (t.nsel >= MAX_SEL) { return -1; }
+            n.sel = t.nsel++;
+            t.arity.push_back(static_cast<int>(want));
+        }
+        const int self = static_cast<int>(t.nodes.size());
+        t.nodes.push_back(n);
+        for (std::size_t k = 0; k < want; ++k)
+        {
+            if (k > 0)
+            {
+                if (pos >= txt.size() || txt[pos] != ',') { return -1; }
+                ++pos;
+            }
+            const int kid = parse_tree(txt, pos, t, depth + 1);
+            if (kid < 0) { return -1; }
+            t.nodes[self].kids.push_back(kid);
+        }
+        if (pos >= txt.size() || txt[pos] != ')') { return -1; }
+        ++pos;
+        return self;
+    }
+
+    bool make_tree(const std::string &txt, Tree &out)
+    {
+        Tree        t;
+        std::size_t pos = 0;
+        t.root          = parse_tree(txt, pos, t, 1);
+        if (t.root < 0 || pos != txt.size()) { return false; }
+        if (t.nodes[t.root].kind != 'i' && t.nodes[t.root].kind != 'm') { return false; }
+        out = std::move(t);
+        return true;
+    }
+
     struct Cfg
     {
         std::string shape{"ts"};
         int         ncons{1};
         std::string stage{"direct"};
         bool        cmp{false};
-        int         targets() const { return cmp ? 3 : 2; }
+        bool        chained{false};   // cfg ... tree:<T>
+        Tree        tree;             // always set: ite = i(a,b), cmp = m(a,b,c)
+        int         targets() const { return tree.ntargets; }
     };
 
     struct DeltaSpec
@@ -228,8 +317,8 @@ namespace
 
     struct Cycle
     {
-        std::optional<int>                      sel;
-        std::array<std::optional<DeltaSpec>, 3> d;
+        std::array<std::optional<int>, MAX_SEL>           sel;   // per selection node
+        std::array<std::optional<DeltaSpec>, MAX_TARGETS> d;
     };
 
     std::vector<std::string> split_commas(const std::string &tok)
@@ -321,28 +410,55 @@ namespace
     struct Obs final : LifecycleObserver
     {
         std::map<std::int64_t, bool> ref_ticked;
+        std::map<std::int64_t, int>  published;
+        int                          nsel{1};
         void on_after_graph_evaluation(const GraphView &graph) override
         {
             if (!graph.is_root()) { return; }
             const auto i = us(graph.evaluation_time()) - us(MIN_ST);
-            for (std::size_t index = 0; index < graph.node_count(); ++index)
+            int        seen = 0, count = 0;
+            for (std::size_t index = 0; index < graph.node_count() && seen < nsel; ++index)
             {
                 auto node = graph.node_at(index);
-                // the selection node is the first (lowest rank) node whose output is a REF
+                // the first nodes with a REF output are the nodes of the selection tree (selection operators and
+                // nested pass-throughs); nodes are stored in rank order, so the root of the tree - it depends on all
+                // the others - is the last of them (a `pass` stage node comes after the root)
                 if (!node.has_output()) { continue; }
                 auto out = node.output(graph.evaluation_time());
                 if (out.schema() == nullptr || out.schema()->kind != TSTypeKind::REF) { continue; }
-                ref_ticked[i] = out.modified();
-                break;
+                ++seen;
+                if (out.modified()) { ++count; }
+                if (seen == nsel) { ref_ticked[i] = out.modified(); }
             }
+            published[i] = count;
         }
     };
 
     template <typename S, int N>
     void wire_inner(Wiring &w, Port<S> deref) { nested_<HgvInner<S, N>>(w, deref); }
 
-    const char *const TARGET_KEYS[3] = {"hgv::a", "hgv::b", "hgv::c"};
-    const char *const RECORD_KEYS[3] = {"hgv::ra", "hgv::rb", "hgv::rc"};
+    const char *const TARGET_KEYS[MAX_TARGETS] = {"hgv::a", "hgv::b", "hgv::c", "hgv::d"};
+    const char *const RECORD_KEYS[MAX_TARGETS] = {"hgv::ra", "hgv::rb", "hgv::rc", "hgv::rd"};
+    const char *const SEL_KEYS[MAX_SEL] = {"hgv::sel", "hgv::sel1", "hgv::sel2", "hgv::sel3", "hgv::sel4", "hgv::sel5"};
+
+    // wire the selection tree bottom-up; every inner result is handed on un-dereferenced (the REF output of
+    // the operator node bound to the REF input of the node above)
+    template <typename S>
+    Port<S> wire_tree(Wiring &w, const Tree &t, int n, const std::vector<Port<S>> &tg)
+    {
+        const TNode &node = t.nodes[n];
+        if (node.kind == 'l') { return tg[node.target]; }
+        std::vector<Port<S>> kids;
+        for (int k : node.kids) { kids.push_back(wire_tree<S>(w, t, k, tg)); }
+        if (node.kind == 'p') { return nested_<HgvRefPass<S>>(w, kids[0].template as<REF<S>>()).template as<S>(); }
+        if (node.kind == 'm')
+        {
+            auto selector = wire<stdlib::replay_impl, TS<stdlib::CmpResult>>(w, Str{SEL_KEYS[node.sel]});
+            return wire<stdlib::if_cmp>(w, selector, kids[0], kids[1], kids[2]).template as<S>();
+        }
+        auto selector = wire<stdlib::replay_impl, TS<Bool>>(w, Str{SEL_KEYS[node.sel]});
+        return wire<stdlib::if_then_else>(w, selector, kids[0], kids[1]).template as<S>();
+    }
 
     template <typename S>
     std::vector<std::string> run_history(const Cfg &cfg, const std::vector<Cycle> &cycles)
@@ -376,7 +492,8 @@ namespace
             }
             wire<stdlib::dense_record_impl>(w, sel.template as<S>(), Str{"hgv::rs"});
         };
-        if (cfg.cmp)
+        if (cfg.chained) { wire_rest(wire_tree<S>(w, cfg.tree, cfg.tree.root, tg)); }
+        else if (cfg.cmp)
         {
             auto selector = wire<stdlib::replay_impl, TS<stdlib::CmpResult>>(w, Str{"hgv::sel"});
             wire_rest(wire<stdlib::if_cmp>(w, selector, tg[0], tg[1], tg[2]));
@@ -389,26 +506,32 @@ namespace
         for (int t = 0; t < cfg.targets(); ++t) { wire<stdlib::dense_record_impl>(w, tg[t], Str{RECORD_KEYS[t]}); }
         GraphBuilder gb = std::move(w).finish();
 
-        std::vector<std::optional<Value>> ds;
-        std::array<std::vector<std::optional<Value>>, 3> dt;
+        std::array<std::vector<std::optional<Value>>, MAX_SEL>     ds;
+        std::array<std::vector<std::optional<Value>>, MAX_TARGETS> dt;
         for (const auto &c : cycles)
         {
-            if (!c.sel.has_value()) { ds.emplace_back(std::nullopt); }
-            else if (cfg.cmp)
+            for (int k = 0; k < cfg.tree.nsel; ++k)
             {
-                const auto r = *c.sel == 0 ? stdlib::CmpResult::LT : *c.sel == 1 ? stdlib::CmpResult::EQ : stdlib::CmpResult::GT;
-                ds.emplace_back(Value{r});
+                const auto &sel = c.sel[k];
+                if (!sel.has_value()) { ds[k].emplace_back(std::nullopt); }
+                else if (cfg.tree.arity[k] == 3)
+                {
+                    const auto r = *sel == 0 ? stdlib::CmpResult::LT : *sel == 1 ? stdlib::CmpResult::EQ : stdlib::CmpResult::GT;
+                    ds[k].emplace_back(Value{r});
+                }
+                else { ds[k].emplace_back(Value{Bool{*sel == 0}}); }
             }
-            else { ds.emplace_back(Value{Bool{*c.sel == 0}}); }
             for (int t = 0; t < cfg.targets(); ++t)
             {
                 dt[t].push_back(c.d[t].has_value() ? std::optional<Value>{make_delta<S>(*c.d[t])} : std::nullopt);
             }
         }
-        testing::set_replay_deltas(gb.global_state(), "hgv::sel", ds);
+        for (int k = 0; k < cfg.tree.nsel; ++k) { testing::set_replay_deltas(gb.global_state(), SEL_KEYS[k], ds[k]); }
         for (int t = 0; t < cfg.targets(); ++t) { testing::set_replay_deltas(gb.global_state(), TARGET_KEYS[t], dt[t]); }
 
         Obs obs;
+        obs.nsel = 0;
+        for (const auto &n : cfg.tree.nodes) { obs.nsel += n.kind != 'l' ? 1 : 0; }
         GraphExecutorBuilder eb;
         eb.graph_builder(std::move(gb))
             .start_time(MIN_ST)
@@ -418,15 +541,16 @@ namespace
         auto               view     = executor.view();
         view.run();
 
-        std::array<std::vector<std::optional<Value>>, 3> rec;
+        std::array<std::vector<std::optional<Value>>, MAX_TARGETS> rec;
         for (int t = 0; t < cfg.targets(); ++t) { rec[t] = testing::get_recorded_deltas(view.graph().global_state(), RECORD_KEYS[t]); }
         auto rs = testing::get_recorded_deltas(view.graph().global_state(), "hgv::rs");
         std::vector<std::string> lines;
-        const char *const        names[3] = {" ra=", " rb=", " rc="};
+        const char *const        names[MAX_TARGETS] = {" ra=", " rb=", " rc=", " rd="};
         for (std::size_t i = 0; i < cycles.size(); ++i)
         {
             const auto  ci = static_cast<std::int64_t>(i);
             std::string s  = std::string{"r="} + (obs.ref_ticked.count(ci) && obs.ref_ticked[ci] ? "1" : "0");
+            if (cfg.chained) { s += " n=" + std::to_string(obs.published.count(ci) ? obs.published[ci] : 0); }
             for (int t = 0; t < cfg.targets(); ++t)
             {
                 s += names[t] + (i < rec[t].size() && rec[t][i].has_value() ? delta_text<S>(rec[t][i]->view()) : std::string{"-"});
@@ -456,6 +580,7 @@ int main()
     hgraph::stdlib::register_standard_operators();
 
     Cfg                cfg;
+    make_tree("i(a,b)", cfg.tree);
     std::vector<Cycle> cycles;
     bool               cfg_bad = false;
     const bool         debug   = getenv("HGV_DEBUG") != nullptr;
@@ -497,6 +622,7 @@ int main()
             {
                 flush(false);
                 cfg     = Cfg{};
+                make_tree("i(a,b)", cfg.tree);
                 cfg_bad = false;
                 std::cout << line << "\n";
             }
@@ -504,16 +630,22 @@ int main()
             {
                 flush(false);
                 Cfg  c;
+                const bool chained = w.size() == 5 && w[4].rfind("tree:", 0) == 0;
                 bool ok = (w.size() == 4 || w.size() == 5) && (w[1] == "ts" || w[1] == "tss" || w[1] == "tsd") &&
                           (w[2] == "1" || w[2] == "2" || w[2] == "3") &&
                           (w[3] == "direct" || w[3] == "pass" || w[3] == "inner" || w[3] == "innerref") &&
-                          (w.size() == 4 || w[4] == "ite" || w[4] == "cmp");
+                          (w.size() == 4 || w[4] == "ite" || w[4] == "cmp" || chained);
+                if (ok)
+                {
+                    c.cmp     = w.size() == 5 && w[4] == "cmp";
+                    c.chained = chained;
+                    ok        = make_tree(chained ? w[4].substr(5) : c.cmp ? std::string{"m(a,b,c)"} : std::string{"i(a,b)"}, c.tree);
+                }
                 if (ok)
                 {
                     c.shape = w[1];
                     c.ncons = static_cast<int>(to_i(w[2]));
                     c.stage = w[3];
-                    c.cmp   = w.size() == 5 && w[4] == "cmp";
                     cfg     = c;
                     cfg_bad = false;
                     std::cout << "ok\n";
@@ -529,8 +661,17 @@ int main()
                     const auto eq = w[i].find('=');
                     if (eq == std::string::npos) { ok = false; break; }
                     const std::string k = w[i].substr(0, eq), v = w[i].substr(eq + 1);
-                    if (k == "sel" && (v == "a" || v == "b" || (v == "c" && cfg.cmp)) && !cy.sel.has_value()) { cy.sel = v[0] - 'a'; }
-                    else if ((k == "a" || k == "b" || (k == "c" && cfg.cmp)) && !cy.d[k[0] - 'a'].has_value())
+                    if (k == "sel" && !cfg.chained && (v == "a" || v == "b" || (v == "c" && cfg.cmp)) && !cy.sel[0].has_value())
+                    {
+                        cy.sel[0] = v[0] - 'a';
+                    }
+                    else if (cfg.chained && k.size() == 2 && k[0] == 's' && k[1] >= '0' && k[1] < '0' + cfg.tree.nsel &&
+                             v.size() == 1 && v[0] >= '0' && v[0] < '0' + cfg.tree.arity[k[1] - '0'] &&
+                             !cy.sel[k[1] - '0'].has_value())
+                    {
+                        cy.sel[k[1] - '0'] = v[0] - '0';
+                    }
+                    else if (k.size() == 1 && k[0] >= 'a' && k[0] < 'a' + cfg.targets() && !cy.d[k[0] - 'a'].has_value())
                     {
                         DeltaSpec d;
                         ok = parse_spec(cfg.shape, v, d);
